@@ -32,12 +32,15 @@ MANIFEST = {
             "(every token containing a quote character is one complete literal: opening quote, inner quotes doubled, closing "
             "quote, `:`-joined for names) are Lean theorems about a model of Tokenizer.parse and all parse_* methods with the "
             "TOKEN_ENDERS / ERROR_CODES / whitespace tables regenerated from the source. Clause 4 (accepts every formula the "
-            "reader emits) is partial: exercised on all fixture formulas, not proved. Model tied to the code by exhaustive "
+            "reader emits): grammar_accepted proves acceptance for the whole formula grammar and "
+            "reader_output_accepted_partial lifts it through C08's exec_compile to every well-formed stored expression without "
+            "array literals whose operand texts are plain; quoted references and arrays are exercised (fixture formulas, C08/C09 "
+            "generated texts), not proved. Model tied to the code by exhaustive "
             "correspondence on short strings (>= 500k inputs per quick run).",
     "note": "The two string regexes and SN_RE are replaced by hand-derived scanners (the derivation is in Model/Tokenizer.lean; "
             "the pattern strings are generated and a theorem pins them, so a changed pattern breaks a proof obligation). "
             "float() in make_operand is not modelled.",
-    "technique": "Lean 4 proof (loop invariant by induction over fuel) + exhaustive differential correspondence on short strings",
+    "technique": "Lean 4 proof (loop invariants by induction over fuel; acceptance by induction over a formula grammar) + exhaustive differential correspondence on short strings",
 }
 
 TYPES = {"OPERAND": "OPERAND", "FUNC": "FUNC", "ARRAY": "ARRAY", "PAREN": "PAREN", "SEP": "SEP",
